@@ -1,5 +1,7 @@
 """C09 case generator: iterators.
    (9 1 shape k)                   ShapeIterator over a shape (zero lengths allowed), k calls of next()
+   (9 4 shape k)                   ShapeIterator, items only: index spaces larger than usize::MAX (the
+                                   element count is not a usize there, so len() is not observed)
    (9 2 kind wi src k)             tensor iterators; kind 0 copy 1 reference 2 mutable reference 3 owned;
                                    wi: WithIndex; src: (0 shape data) | (1 src names) reverse |
                                    (2 src ((start len)..)) range | (3 src names) access | (4 src names) transpose |
@@ -11,7 +13,7 @@
    every prefix and three calls after exhaustion are observed; for mutable / owning iterators every
    prefix length k is a separate case and the source's data afterwards is compared."""
 import itertools, random
-from tools.vlib import sx
+from tools.vlib import sx, MAXU
 
 THEOREMS_FILE = "C09"
 
@@ -171,6 +173,32 @@ def gen(tier, rng):
         names = rng.sample(range(12), D)
         n = elements(lens)
         yield sx([9, 1, tshape(lens, names), rng.choice([n + 3, rng.randrange(0, n + 4)])])
+
+    # ---- index spaces around and beyond usize::MAX (the bare ShapeIterator owns its shape and
+    # allocates nothing, so these are legal and consumed lazily): first few items only
+    M = MAXU
+    huge = [[2 ** 63, 2], [65536] * 4, [2 ** 32, 2 ** 32, 2], [M, 3], [3, M], [M, M], [M] * 6, [2 ** 11] * 6,
+            [1, 2 ** 63, 2, 1], [2, 2 ** 63], [2 ** 22] * 3, [M, 1, M], [2 ** 64 // 3 + 1, 3], [5, 2 ** 62, 2],
+            [2 ** 16, 2 ** 16, 2 ** 16, 2 ** 16, 1], [2, 2, 2 ** 63]]
+    for lens in huge:
+        for k in (1, 4, 7):
+            yield sx([9, 4, tshape(lens), k])
+    for _ in range(40 if quick else 400):
+        D = rng.randrange(2, 7)
+        lens = [rng.choice([1, 2, 3, 2 ** 16, 2 ** 31, 2 ** 32, 2 ** 33, 2 ** 63, M, M - 1]) for _ in range(D)]
+        if elements(lens) <= M:
+            lens[rng.randrange(D)] = M
+            lens[rng.randrange(D)] = max(lens[0], 2)
+        if elements(lens) <= M:
+            continue
+        yield sx([9, 4, tshape(lens, rng.sample(range(12), D)), rng.randrange(1, 9)])
+    # zero lengths next to huge ones (the clean iterator starts exhausted: length 0, no arithmetic),
+    # and large index spaces that still fit a usize (length observable)
+    for lens in ([M, M, 0], [2 ** 63, 0, 2 ** 63], [0, M, M], [M, M, 2, 0], [2 ** 40, 2 ** 40, 0, 5], [0, 2 ** 63, 2],
+                 [2 ** 62, 2], [2 ** 31, 2 ** 31, 2], [M], [M, 1], [1, M, 1], [2 ** 21] * 3, [3, 2 ** 61]):
+        for k in (1, 3, 5):
+            yield sx([9, 1, tshape(lens), k])
+            yield sx([9, 4, tshape(lens), k])
 
     # ---- tensor iterators over a Tensor: every shape with lengths 1..3, D <= 4 (3: lengths 1..2 for
     # the every-prefix mutable/owned families when quick)
